@@ -29,6 +29,8 @@ def load_controls(pid):
                 continue
             with open(mp) as fh:
                 m = json.load(fh)
+            if m.get('breaks_property') != pid:
+                continue            # detections by other properties' checks are recorded, not required
             for det in m.get('detected_by', []):
                 if det.get('property') == pid:
                     out.append({'kind': 'patch', 'name': 'seeded/' + d, 'patch': os.path.join(sd, d, 'patch.diff'),
